@@ -42,6 +42,17 @@ impl ParamHandler {
             raw_params,
             count,
         };
+
+        // The raw parameter vector starts from the parameters of the initial transformations, so
+        // that the first `compute` does not overwrite them (the initial rotations) with zeros
+        for i in 0..count {
+            if i != static_i {
+                let start = item.p_index(i) * 6;
+                let x = *item.params[i].x();
+                item.raw_params.fixed_rows_mut::<6>(start).copy_from(&x);
+            }
+        }
+
         item.compute();
         item
     }
